@@ -273,16 +273,10 @@ add(["C06", "C07"], "c06_vec_null_bomb", "candid", "de_fast",
     "vec null with a symbolic length prefix (10 symbolic bytes), decoding quota symbolic <= 20",
     "zero-sized elements are not free: a successful decode materialised at most quota elements; space bombs are stopped",
     est_s=200, cap_s=2400, cbmc_args=MEMCMP)
-MAP_WHAT = ("one map entry pulled through Compound's MapAccess by a light-weight (&str,&str) visitor at expected vec record{text;text}: "
-            "Ok => wire entry type is record{text;text}; key and value are the wire texts; exact consumption; well-formed entry "
-            "without quota => Ok")
-for w, q in (("text_text", True), ("text_blob", True), ("text_nat8", False), ("blob_text", False), ("text_vecint8", False)):
-    add(["C08", "C06"], f"c08_map_tt_w_{w}", "candid", "de_fast",
-        f"wire vec record {{{w.replace('_', '; ')}}}; entry count 1; 5 symbolic payload bytes; symbolic quotas", MAP_WHAT,
-        quick=q, est_s=300, cap_s=2400, cbmc_args=MEMCMP)
-add(["C08", "C06"], "c08_map_text_u8", "candid", "de_fast", "map<text,nat8>, one entry, 4 symbolic payload bytes",
-    "after a text key read through the fast path the value is read at nat8: entry == wire bytes, exact consumption",
-    est_s=200, cap_s=2400, cbmc_args=MEMCMP)
+# Map-style harnesses (c08_map_*) are NOT registered: Kani 0.68 mis-projects the tuple fields of
+# de::Style::Map { expect: (Type,Type), wire: (Type,Type) } (expect.1 / wire.1 read back wrong, probe
+# dbg_pooled_record_fields), so every verdict through Compound's Map style is unsound in both directions.
+# The replay guard exposed it (counterexamples that pass natively). Source kept in de_fast.rs for the record.
 BV_WHAT = "Ok <=> count <= MAX_LEN and every element <= MAX_ELEM and sum <= MAX_TOTAL (and the vector fits the input)"
 add("C08", "c08_bvec_u8_len3_total8", "candid", "de_fast", "BoundedVec<3,8,1,u8>, symbolic count 0..127 in 7 bytes", BV_WHAT, est_s=200,
     cap_s=2400, cbmc_args=MEMCMP)
